@@ -17,7 +17,14 @@ func (_ ValueObject) Kind() ValueKind { return ObjectValueKind }
 
 func (self ValueObject) Display() (string, *Interrupt) {
 	fields := make([]string, 0)
-	for key, field := range self.FieldsInternal {
+	// Deterministic output: fields are displayed in key order
+	keys := make([]string, 0, len(self.FieldsInternal))
+	for key := range self.FieldsInternal {
+		keys = append(keys, key)
+	}
+	sort.Strings(keys)
+	for _, key := range keys {
+		field := self.FieldsInternal[key]
 		disp, err := (*field).Display()
 		if err != nil {
 			return "", err
